@@ -50,8 +50,39 @@ func replayableType(t types.Type) bool {
 	case *types.Basic:
 		return u.Info()&(types.IsInteger|types.IsString|types.IsBoolean) != 0
 	}
-	return false
+	_, _, ok := plainStruct(t)
+	return ok
 }
+
+// plainStruct: a named struct whose (at most six, exported) fields are integers, strings, booleans or math.Int:
+// it can be written as a composite literal and compared field by field.
+func plainStruct(t types.Type) (*types.Named, *types.Struct, bool) {
+	n, ok := types.Unalias(t).(*types.Named)
+	if !ok || isMathInt(t) || isAccAddress(t) || isCollection(t) {
+		return nil, nil, false
+	}
+	st, ok := n.Underlying().(*types.Struct)
+	if !ok || st.NumFields() == 0 || st.NumFields() > 6 {
+		return nil, nil, false
+	}
+	for i := 0; i < st.NumFields(); i++ {
+		f := st.Field(i)
+		if !f.Exported() || f.Embedded() {
+			return nil, nil, false
+		}
+		if isMathInt(f.Type()) {
+			continue
+		}
+		b, ok := types.Unalias(f.Type()).Underlying().(*types.Basic)
+		if !ok || b.Info()&(types.IsInteger|types.IsString|types.IsBoolean) == 0 {
+			return nil, nil, false
+		}
+	}
+	return n, st, true
+}
+
+// curReg: the sort registry of the engine in use (accessor names of struct sorts)
+var curReg *TypeReg
 
 func (cr *checkRun) tryReplayModel(o *Obligation, vc *VC) *replayResult {
 	fn := vc.targetFn
@@ -125,28 +156,7 @@ func (cr *checkRun) tryReplayModel(o *Obligation, vc *VC) *replayResult {
 	} else {
 		call = fn.Name() + "(" + strings.Join(lits, ", ") + ")"
 	}
-	var lhs, record []string
-	for i := 0; i < sig.Results().Len(); i++ {
-		r := fmt.Sprintf("r%d", i)
-		lhs = append(lhs, r)
-		rt := sig.Results().At(i).Type()
-		switch {
-		case types.Identical(rt, types.Universe.Lookup("error").Type()):
-			record = append(record, fmt.Sprintf(`out["%s_nil"] = %s == nil; if %s != nil { out["%s_text"] = %s.Error() }`, r, r, r, r, r))
-		case isMathInt(rt):
-			record = append(record, fmt.Sprintf(`out["%s_nil"] = %s.IsNil(); if !%s.IsNil() { out["%s"] = %s.String() }`, r, r, r, r, r))
-		default:
-			if b, ok := types.Unalias(rt).Underlying().(*types.Basic); ok && b.Info()&types.IsInteger != 0 {
-				record = append(record, fmt.Sprintf(`out["%s"] = fmt.Sprintf("%%d", %s)`, r, r))
-			} else if ok && b.Info()&types.IsString != 0 {
-				record = append(record, fmt.Sprintf(`out["%s"] = string(%s)`, r, r))
-			} else if ok && b.Info()&types.IsBoolean != 0 {
-				record = append(record, fmt.Sprintf(`out["%s"] = bool(%s)`, r, r))
-			} else {
-				record = append(record, fmt.Sprintf(`_ = %s`, r))
-			}
-		}
-	}
+	lhs, record := recordStmts(sig)
 	assign := ""
 	if len(lhs) > 0 {
 		assign = strings.Join(lhs, ", ") + " := "
@@ -248,38 +258,12 @@ func TestGovcReplay(t *testing.T) {
 	for k, n := range names {
 		pins = append(pins, "(assert (= "+n+" "+vals[k]+"))")
 	}
-	for k := 0; k < sig.Results().Len(); k++ {
-		r := fmt.Sprintf("r%d", k)
-		t := vc.resultVals[k].t
-		rt := sig.Results().At(k).Type()
-		switch {
-		case types.Identical(rt, types.Universe.Lookup("error").Type()):
-			if isNil, ok := res.Observed[r+"_nil"].(bool); ok {
-				if isNil {
-					pins = append(pins, "(assert (= (itag "+t+") 0))")
-				} else {
-					pins = append(pins, "(assert (not (= (itag "+t+") 0)))")
-				}
-			}
-		case isMathInt(rt):
-			if isNil, ok := res.Observed[r+"_nil"].(bool); ok && isNil {
-				pins = append(pins, "(assert (mi!nil "+t+"))")
-			} else if s, ok := res.Observed[r].(string); ok {
-				pins = append(pins, "(assert (= "+t+" (mkMInt false "+smtInt(s)+")))")
-			}
-		default:
-			switch v := res.Observed[r].(type) {
-			case string:
-				if b, ok := types.Unalias(rt).Underlying().(*types.Basic); ok && b.Info()&types.IsInteger != 0 {
-					pins = append(pins, "(assert (= "+t+" "+smtInt(v)+"))")
-				} else {
-					pins = append(pins, "(assert (= "+t+" "+smtString(v)+"))")
-				}
-			case bool:
-				pins = append(pins, fmt.Sprintf("(assert (= %s %v))", t, v))
-			}
-		}
+	rp, complete := resultPins(sig, vc.resultVals, res.Observed)
+	if !complete {
+		res.Note = "no-failing-input-found: replay ran, but a result of the call is of a type the harness does not record"
+		return res
 	}
+	pins = append(pins, rp...)
 	confirmQ := query[:i] + strings.Join(pins, "\n") + "\n" + goal + "\n(check-sat)\n"
 	confirmQ = strings.Replace(confirmQ, "(declare-fun mulI (Int Int) Int)", "(define-fun mulI ((a Int) (b Int)) Int (* a b))", 1)
 	cf := filepath.Join(dir, "confirm.smt2")
@@ -390,6 +374,22 @@ func goLiteral(t types.Type, v string, pkg *types.Package, imports map[string]st
 		imports["math/big"] = "p_big"
 		return fmt.Sprintf(`p_sdkmath.NewIntFromBigInt(func() *p_big.Int { x, _ := new(p_big.Int).SetString("%s", 10); return x }())`, n.String()), true
 	}
+	if _, st, ok := plainStruct(t); ok {
+		se := parseSExpr(v)
+		if se == nil || len(se.list) != st.NumFields()+1 {
+			return "", false
+		}
+		tn, _ := typeName()
+		var parts []string
+		for i := 0; i < st.NumFields(); i++ {
+			fl, ok := goLiteral(st.Field(i).Type(), se.list[i+1].String(), pkg, imports)
+			if !ok {
+				return "", false
+			}
+			parts = append(parts, st.Field(i).Name()+": "+fl)
+		}
+		return tn + "{" + strings.Join(parts, ", ") + "}", true
+	}
 	b, ok := types.Unalias(t).Underlying().(*types.Basic)
 	if !ok {
 		return "", false
@@ -497,6 +497,7 @@ func replayEligible(o *Obligation, vc *VC) bool {
 // strings and structured string tuples, the constants of the function) for one on which the real function
 // contradicts the clause. A searched input is confirmed exactly like a model input.
 func (cr *checkRun) tryReplay(o *Obligation, vc *VC) *replayResult {
+	curReg = cr.e.types
 	res := cr.tryReplayModel(o, vc)
 	if res != nil && res.Confirmed {
 		return res
